@@ -260,11 +260,21 @@ def occurrence_index(prog):
         if g.npath in row_closures and any(c.callee.name == "enumerate" for h in fam for c in h.terms.calls
                                            if any(isinstance(a, tuple) and a and a[0] == "agg" and a[1] == "closure" and a[2] == g.npath
                                                   for c2 in h.terms.calls if c2.callee.name == "filter_map" for a in c2.args)):
+            def some_sites(t, blk, extra, depth=0):
+                t = strip(t)
+                if depth > 8 or not isinstance(t, tuple) or not t:
+                    return
+                if t[0] == "phi":
+                    for pb, v in t[2]:
+                        pbn = int(str(pb).replace("bb", "")) if not isinstance(pb, int) else pb
+                        some_sites(v, pbn, extra, depth + 1)
+                elif t[0] == "gamma":
+                    for lab, v in t[2]:
+                        some_sites(v, blk, extra + [(t[1], lab)], depth + 1)
+                elif t[0] == "agg" and t[3] == "Some":
+                    sites.append((g, blk, None, "Some(idx)", extra))
             for b, t in te.ret_by_block.items():
-                for x in [strip(t)] + list(mir.subterms(t)):
-                    if isinstance(x, tuple) and x and x[0] == "agg" and x[3] == "Some":
-                        sites.append((g, b, None, "Some(idx)"))
-                        break
+                some_sites(t, b, [])
     if not sites:
         return [inst("HS", "%s:HS7:index-complete" % fn.npath, UNDECIDED, fn, None,
                      "? no place that records a clause index in pos_lits / neg_lits was found")]
@@ -287,8 +297,10 @@ def occurrence_index(prog):
             return True
         return False
     excl = []
-    for g, b, line, what in sites:
-        for c, v, _, _ in g.terms.facts_at(b):
+    for site in sites:
+        g, b, line, what = site[:4]
+        extra = site[4] if len(site) > 4 else []
+        for c in [c_ for c_, v, _, _ in g.terms.facts_at(b)] + [c_ for c_, _ in extra]:
             if not expected(c):
                 excl.append((show(strip(c))[:70], g, line))
     texts = sorted({e[0] for e in excl})
